@@ -230,3 +230,61 @@ func (r *Runner) Run(wl Workload) error {
 	}
 	return r.call(len(wl.Ops)+1, "Close", func() error { return r.W.Close() })
 }
+
+// ModelAfter replays the workload on the reference model alone: the log after the first
+// `acked` steps were acknowledged (steps are 1-based as in Run; Open is step 0), and, if step
+// acked+1 exists and mutates the log, the log as it would be with that step applied as well
+// (nil otherwise). Only for workloads without Retry/reopenlost.
+func ModelAfter(w Workload, acked int) (m *refmodel.LogModel, withNext *refmodel.LogModel) {
+	m = refmodel.NewLogModel()
+	gen := uint8(0)
+	apply := func(mm *refmodel.LogModel, step int, op Op, g *uint8) {
+		switch op.K {
+		case "append":
+			start := mm.Last + 1
+			if mm.Empty() {
+				start = op.Start
+				if start == 0 {
+					start = 1
+				}
+			}
+			var logs []*raft.Log
+			for j, sz := range op.Sizes {
+				logs = append(logs, kit.EntrySpec{DataLen: sz, Seed: uint8(step + j)}.Make(start+uint64(j), *g))
+			}
+			mm.Append(logs)
+		case "delhead", "deltail", "delall":
+			if mm.Empty() {
+				return
+			}
+			var min, max uint64
+			switch op.K {
+			case "delhead":
+				min, max = mm.First, mm.First+uint64(op.A)
+			case "deltail":
+				min, max = mm.Last-uint64(op.A)%mm.Len(), mm.Last
+			default:
+				min, max = mm.First, mm.Last
+			}
+			mm.Delete(min, max)
+			*g++
+		}
+	}
+	for i, op := range w.Ops {
+		step := i + 1
+		if step <= acked {
+			apply(m, step, op, &gen)
+			continue
+		}
+		if step == acked+1 {
+			switch {
+			case op.K == "append", (op.K == "delhead" || op.K == "deltail" || op.K == "delall") && !m.Empty():
+				withNext = m.Clone()
+				g2 := gen
+				apply(withNext, step, op, &g2)
+			}
+		}
+		break
+	}
+	return
+}
